@@ -179,7 +179,17 @@ def main_check(check_name, tier, replay=None):
         with open(replay) as f:
             rep = json.load(f)
         res = Result()
-        mod.replay(rep["case"], res)
+        try:
+            mod.replay(rep["case"], res)
+        except Exception as e:  # a case-level replay is best effort; fall back to the shard
+            res.inconclusive.append(f"case replay raised {e!r}")
+        if not res.violations and rep.get("shard_spec") is not None:
+            # fall back: re-run the recorded shard (same seed, same inputs) and look for the same mechanism
+            os.environ["VERIF_SEED"] = str(rep.get("seed", 0))
+            res2 = Result()
+            mod.run_shard(rep["shard_spec"], res2)
+            res.violations = [v for v in res2.violations if v["key"] == rep["key"]] or res2.violations
+            print(f"replay: re-ran the recorded shard ({res2.evaluations} evaluations)")
         for v in res.violations:
             print(f"REPLAY-VIOLATION property={prop} key={v['key']} {v['what']}")
         print(f"replay: {len(res.violations)} violation(s)")
@@ -245,7 +255,7 @@ def main_check(check_name, tier, replay=None):
             path = os.path.join(REPLAY_DIR, name)
             with open(path, "w") as f:
                 json.dump({"property": prop, "check": check_name, "tier": tier, "seed": seed,
-                           "key": key, "what": v["what"], "case": v["case"],
+                           "key": key, "what": v["what"], "case": v["case"], "shard_spec": v.get("shard_spec"),
                            "more_cases": [x["case"] for x in vs[1:]]}, f, indent=1, default=str)
             print(f"  witness key={key}: {v['what'][:600]}")
             print(f"VIOLATION property={prop} replay={path}")
